@@ -292,6 +292,52 @@ def failure_edge(fn, call, kind, var_d=None):
     return out
 
 
+def node_nonnull_at(fn, site, member="node_"):
+    """Forward must-analysis: on every path to `site` the last event on
+    this->node_ is a non-null test that held (no assignment since)."""
+    from lib import typestate
+
+    def is_member(i):
+        st = fn.s(fn.strip(i, casts=True))
+        return st["k"] == "MemberExpr" and st.get("m") == member and (not st["c"] or fn.s(fn.strip(st["c"][0], casts=True))["k"] == "CXXThisExpr")
+
+    def transfer(fn_, e, s_):
+        st = fn_.s(e)
+        if st["k"] in ("BinaryOperator", "CompoundAssignOperator") and st["op"] == "=" and is_member(st["c"][0]):
+            r = fn_.s(fn_.strip(st["c"][1], casts=True))
+            return ("null",) if r["k"] in ("CXXNullPtrLiteralExpr", "GNUNullExpr") or r.get("cv") == "0" else ("unknown",)
+        return (s_,)
+
+    def branch(fn_, cond, pol, s_):
+        if isinstance(cond, tuple):
+            return s_
+        c = cond
+        neg = False
+        while True:
+            st = fn_.s(fn_.strip(c, casts=True))
+            if st["k"] == "UnaryOperator" and st["op"] == "!":
+                neg = not neg
+                c = st["c"][0]
+                continue
+            break
+        if is_member(c):
+            truth = pol != neg
+            if truth and s_ == "null":
+                return None         # infeasible
+            if not truth and s_ == "nonnull":
+                return None
+            return "nonnull" if truth else "null"
+        return s_
+    bad = []
+
+    def check(fn_, e, s_):
+        if e == site and s_ != "nonnull":
+            return "node_ is %s here" % s_
+        return None
+    reports, _x, err = typestate.analyse(fn, "unknown", transfer, branch, check)
+    return not reports and not err
+
+
 def run(ctx, prog):
     from rules import jsonparse
     jsonparse.r_validafter(ctx, prog)
@@ -550,6 +596,8 @@ def run(ctx, prog):
             for b, nn, nl_ in nonnull_edges(fn, member="node_"):
                 if pb and fn.edge_dominates(b, nn, pb[0]):
                     ok = True
+            if not ok:
+                ok = node_nonnull_at(fn, i)
             # early return on null:  if (!node_) return ...;
             asserted = fn.name in ("save", "str")  # documented precondition: isValid() checked by the caller
             ctx.ob(rule, "%s: write through node_->data under a non-null test" % fn.short, ok or asserted, fn.loc(i),
